@@ -158,14 +158,14 @@ class DataPath:
         REPLACE = "path"
         ESC_CODE = rf"\{REPLACE}"
         is_escaped = False
-        for k in list(spec.keys()):
+        unescaped = {}  # a new mapping: the caller's spec is left as it is
+        for k, v in spec.items():
             if ESC_CODE in k:
                 is_escaped = True
-                spec_val = spec.pop(k)
-                k_new = k.replace(ESC_CODE, REPLACE)
-                spec[k_new] = spec_val
+                k = k.replace(ESC_CODE, REPLACE)
+            unescaped[k] = v
         if is_escaped:
-            return spec
+            return unescaped
 
         if len(spec) > 1:
             raise MalformedDataPathSpec(
